@@ -41,6 +41,118 @@ CHECKS["C19"] = dict(
     technique="Coq proof (noninterference over a store model, induction over mutation histories) + generated effect sites + "
               "model/implementation correspondence in vm_compute")
 
+
+def _c(pid, text, note, technique, design=None):
+    CHECKS[pid] = dict(text=text, design=design or ("DESIGN.md §6 %s, §12" % pid), note=note, technique=technique)
+
+
+_c("C03",
+   "Coq theorems (Props/C03.v, closed under the global context) about the executable model of Structure.__setattr__, "
+   "__delitem__ and the wrapper mutators (Struct/Instance.v, Struct/Mutate.v), whose per-mutator shapes are regenerated from "
+   "collections_impl.py and introspection of list/dict/deque on every run (Gen/Tables.v): an exact characterisation of the "
+   "steps that are validated and failure-atomic (C03_step_safe, C03_setattr_exact, C03_delitem_exact, parametric in the "
+   "table), its lift to histories of any length by induction (C03_history, C03_failed_steps_stutter), and a constructed "
+   "violating (class, state, op) for every unsafe table entry (C03_witness) plus C03_refuted for the full statement, which is "
+   "false of the faithful model on the pinned tree. The model's mstep is compared with typedpy on generated histories inside "
+   "Coq, and the property's clauses (snapshot unchanged on raise, allowed exception class, struct_ok after success) are "
+   "evaluated on every observed step to produce replays.",
+   "Trusted: Coq kernel + vm_compute; hand-written Instance.v/Mutate.v; shape recogniser harness/gen.py (fail closed); CPython's "
+   "base-container result used as the oracle of a wrapper op; nested containers and DateString checked on the implementation only.",
+   "Coq proof (invariant by induction over operation histories, characterisation parametric in generated tables) + "
+   "model/implementation correspondence in vm_compute")
+_c("C05",
+   "Coq theorems (Props/C05.v, closed under the global context): for every canonical valid instance of the proved fragment "
+   "(Number/Integer/Float/String/Boolean with any constraints, Enum by literals / by name / by value, Array/Deque of items, "
+   "Map with scalar keys, nested structures to any depth, with _ignore_none, _additional_properties, defaults, hooks) the model "
+   "serializer returns pure JSON (C05_pure) and the model deserializer returns exactly the instance (C05_roundtrip; induction on "
+   "fuel, field_ind' on declarations, Forall on values), falsy values included (C05_falsy); the full statement is refuted by the "
+   "required-field-holding-None witness. AnyOf/Set/Tuple/positional items/Anything/date fields are in the executable model and the "
+   "correspondence but not in the theorems. Model ser/deser are compared with Serializer/Deserializer inside Coq and the clauses "
+   "(json.dumps accepts, only JSON types, deserialize(serialize(x)) == x, lossy fixpoint) are evaluated on the implementation.",
+   "Trusted: Coq kernel + vm_compute; hand-written Ser/Serialize.v, Ser/Deserialize.v; date formats as measured oracle (RT); "
+   "harness/sergen.py generator and reifier; CPython json.",
+   "Coq proof (round-trip by mutual structural induction) + model/implementation correspondence in vm_compute")
+_c("C06",
+   "PARTIAL. Coq theorems (Props/C06.v, closed under the global context) for the extra-key clause: the exhaustive case analysis of "
+   "additional-properties x keep_undefined x ignore_invalid_additional_properties (C06_extra_keys_dropped / _rejected / _cases, "
+   "C06_keep_undefined_adjustment) over the executable model of the deserializer. The agreement clause (deserialize d == "
+   "constructor on the documented reading of d) is NOT proved: the independently written documented reading (Ser/DocReading.v) and "
+   "the model deserializer are both evaluated in Coq on every generated document (images, single-point corruptions, non-object "
+   "documents, both flags) and compared with the real Deserializer and with cls(**lift(d)).",
+   "Trusted: Coq kernel + vm_compute; Ser/Deserialize.v, Ser/DocReading.v hand-written; generator harness/sergen.py; CPython. "
+   "C06_agree / C06_error_class are decided by the differential only.",
+   "Coq proof (case analysis of the extra-key policy) + executable documented-reading spec and model/implementation "
+   "correspondence in vm_compute")
+_c("C07",
+   "Coq theorems (Props/C07.v, closed under the global context) over the executable model of mapper aggregation (Ser/Mappers.v): "
+   "for any mapper list the aggregated mapper equals the declarative left-to-right rename chain (C07_agg_is_chain, induction over "
+   "the list; hypothesis chain_ok characterises the code's same-entry shortcut), nested ._mapper entries (C07_nested_mapper), the "
+   "serialized key set at a level is exactly the image of the populated non-dropped fields (C07_keys_exact, _nested), DoNotSerialize "
+   "fields absent, collisions only via the mapper, the lookup half of the round trip (C07_roundtrip_lookup_partial), wrapper "
+   "construction rejects non-field keys; refutation witnesses where the full statement is false of the faithful model. Aggregated "
+   "dicts, documents and deserializations are compared with typedpy inside Coq on all mapper assignments of depth <= 3.",
+   "Trusted: Coq kernel + vm_compute; Ser/Mappers.v hand-written (single inheritance, Integer fields, identity value serialization); "
+   "harness generator; CPython. Full round trip composed with deser_struct is covered by the correspondence and real ==.",
+   "Coq proof (induction over mapper chains and nesting) + model/implementation correspondence in vm_compute")
+_c("C09",
+   "Coq theorems (Props/C09.v, closed under the global context): a model of Python's string-literal lexer and of each quoting "
+   "discipline; for ALL strings, a literal emitted under discipline q lexes back to the string iff quote_ok q s (C09_lex_roundtrip, "
+   "C09_lex_break: exact characterisation by induction over the string), repr is total (C09_repr_total), the unsafe character sets "
+   "of the raw disciplines, and their lift to whole generated classes (C09_relex). The discipline of every emission site is "
+   "regenerated from the AST of json_schema_mapping.py on every run (Gen/EmitSites.v): Repr sites are safe for all strings, every "
+   "other site has a constructed witness (C09_sites, C09_sites_witness). The back-mapping and equivalence clauses are NOT proved; "
+   "they are evaluated on the implementation (compile/exec, structure_to_schema round trip, independent Draft4Validator).",
+   "Trusted: Coq kernel + vm_compute; lexer model Schema/PyLiteral.v validated against tokenize/literal_eval; site recogniser in "
+   "harness/genmods/emit_sites.py (fail closed); jsonschema in python3-vt; CPython compile().",
+   "Coq proof (lexer round-trip characterisation by induction over strings, parametric in generated emission sites) + "
+   "model/implementation correspondence in vm_compute")
+_c("C12",
+   "Coq theorems (Props/C12.v, closed under the global context) over an executable model of StructMeta.__new__ (Struct/Define.v) "
+   "and of the derivation operators followed by the same define (Struct/Derive.v): exact field sets and required sets per "
+   "operator (C12_fields, C12_required, C12_required_general), never a subclass, retained members are the source's field objects "
+   "(same vset, immutability, default), compositions of ANY length are the fold of the documented set operations (C12_compose, "
+   "induction over the operator list), bad names raise TypeError, the source and the rest of the environment are unchanged. "
+   "Class statements and derivations are run on typedpy and compared step by step inside Coq; documented sets, issubclass and "
+   "source-vs-derived accept/reject/normal form are evaluated on the implementation.",
+   "Trusted: Coq kernel + vm_compute; Define.v/Derive.v hand-written; harness/defgen.py; CPython metaclass protocol.",
+   "Coq proof (induction over operator chains on a model of class definition) + model/implementation correspondence in vm_compute")
+_c("C14",
+   "Coq theorems (Props/C14.v, closed under the global context) over the same class-definition model: a subclass has every field "
+   "of every base at any depth and with multiple bases (C14_fields_mono, induction over descends; invariant of every environment "
+   "reachable by class statements), required-ness is monotone where the bases agree (C14_required_mono; unconditional statement "
+   "refuted by a multi-base witness), unredeclared names resolve to the bases' member, one lemma per listed definition fault "
+   "showing define raises (C14_fault_*), AbstractStructure. Hierarchies to depth 4 with mixins and every single-fault variant "
+   "are run on typedpy and compared with the model inside Coq.",
+   "Trusted: as C12. No totality theorem (valid statements define successfully): checked by correspondence.",
+   "Coq proof (induction over class hierarchies, per-fault lemmas) + model/implementation correspondence in vm_compute")
+_c("C16",
+   "PARTIAL. Coq theorems (Props/C16.v, closed under the global context) over models of make_signature (Stubs/Signature.v) and of "
+   "the stub generator at the level of (name, has-default, kind) (Stubs/StubModel.v), for hierarchies of any depth by induction: "
+   "stub keywords = runtime parameters minus constants, no default iff required (under def_ok/tok_safe; unconditional statement "
+   "refuted), ** iff additional properties (under kw_safe; refuted otherwise), helper methods carry the same keywords, no mandatory "
+   "parameter after an optional one, determinism. That the text parses, every class is declared, enum names are kept and output is "
+   "byte-identical across PYTHONHASHSEED values are runtime facts decided by the harness (real create_stub_for_file in "
+   "subprocesses, ast.parse/compile, inspect.signature, constructor probes), not by the theorems.",
+   "Trusted: Coq kernel + vm_compute; Signature.v/StubModel.v hand-written (single Structure inheritance); harness/c16_runner.py; CPython.",
+   "Coq proof (induction over hierarchies on a model of signature and stub generation) + model/implementation correspondence in vm_compute")
+
+_c("C20",
+   "PARTIAL. Coq theorems (Props/C20.v, closed under the global context) over a model in which a thread is a list of atomic "
+   "read/write actions on shared cells and interleavings are the inductive shuffle of any number of threads (any number of "
+   "pre-emptions): if no cell written by one thread is accessed by another, every thread observes under EVERY interleaving what "
+   "it observes alone (C20_private_safe, induction over the shuffle); the same when all writes to a cell store one constant "
+   "written before it is read (C20_idempotent_write_safe); a write .. re-read pattern with a foreign write possible in between "
+   "has a constructed schedule whose observation occurs in no sequential order (C20_witness, C20_find_race_sound). The ordered "
+   "accesses of every collection validator to attributes of shared Field objects are regenerated from the AST on every run "
+   "(Gen/SharedAccess.v), cross-checked dynamically by instrumenting Field.__setattr__, and classified by these theorems; a "
+   "deterministic scheduler (real threads under sys.settrace) explores all schedules with <= 2 (thorough 3) pre-emptions at the "
+   "table's lines over every field kind and compares each thread's outcome with its sequential outcome; model traces are "
+   "compared with real traces inside Coq. Atomicity grain is the source line.",
+   "Trusted: Coq kernel + vm_compute; access-list recogniser harness/genmods/shared_access.py (fail closed); harness/sched.py; "
+   "CPython threading/settrace; pre-emption only at source lines named by the table and the mapper-cache lines.",
+   "Coq proof (all interleavings by induction over the shuffle relation, witness construction) + generated access lists + "
+   "deterministic schedule exploration and trace correspondence in vm_compute")
+
 PENDING = {}
 
 def main():
